@@ -366,7 +366,12 @@ def r12_6(cx):
         eg = [g for g in end.calls() if g.op.rsplit('::', 1)[-1] in ('get', 'first', 'last', 'get_unchecked', 'index') and g.has_call(MV + '::offsets')]
         def prev_index(e):
             e = e.strip()
-            return e.kind == 'binop' and e.op == 'Sub' and e.a.strip().kind == 'param' and e.b.is_const_int(1)
+            if e.kind == 'binop' and e.op == 'Sub' and e.a.strip().kind == 'param' and e.b.is_const_int(1):
+                return True
+            # `match index.checked_sub(1) { Some(previous) => offsets.get(previous) .. }`
+            cs = [c for c in e.calls() if c.op.rsplit('::', 1)[-1] == 'checked_sub']
+            return e.kind == 'proj' and len(cs) == 1 and cs[0].args[0].strip().kind == 'param' and cs[0].args[1].is_const_int(1) and \
+                not any(n.kind == 'binop' for n in e.walk())
         okb = bool(sg) and bool(eg) and all(g.op.endswith('get') and len(g.args) == 2 and prev_index(g.args[1]) for g in sg) and \
             all(g.op.endswith('get') and len(g.args) == 2 and g.args[1].strip().kind == 'param' for g in eg)
     cx.check(okb, 'value-bounds', gv, ix[0].loc() if ix else None, 'value i = storage[header + offsets[i-1] .. header + offsets[i]] (0 and len at the ends)',
